@@ -259,6 +259,14 @@ def system_specs(api, M, O, ctx):
         if first or not ctx.quick:
             cplx = [[[T(H, "single_layer", 1.0, kc)], [T("sparse", "identity", 1.0j)]], [[ident], dl]]
             add("blkcplx", "blocked", "blocked", [dp0s, p1s], [dp0, p1], [dp0, p1], cplx, descr="complex blocked with real and complex blocks")
+        if first and mesh.ne <= 40:
+            # range space != dual space with a square, NON-symmetric mass matrix (BC range, SNC dual): the strong form is
+            # M(range, dual)^-1 A_w, not its transpose
+            bc_ = api.function_space(grid, "BC", 0)
+            snc_ = api.function_space(grid, "SNC", 0)
+            idb = [[[T("sparse", "identity", 1.0)], [T("sparse", "identity", 0.3j)]], [[T("sparse", "identity", -0.2)], [T("sparse", "identity", 1.5)]]]
+            add("blkbc", "blocked", "blocked", [bc_, bc_], [bc_, bc_], [snc_, snc_], idb,
+                descr="2x2 complex combination of identity(BC, BC, SNC): range BC, dual SNC, non-symmetric mass matrix")
         if first:
             add("blkprod", "blocked", "product", [p1s, dp0s], [dp0, p1], [dp0, p1], cheap_perm,
                 descr="diag(I) * [[M, V],[1/2I-K, M^T]] (ProductBlockedOperator; domain spaces (P1s,DP0s) differ from those of the left factor)")
